@@ -31,7 +31,7 @@ STRICT_ORIGINS = {
 
 COMMON_RAISE = {
     "raises-closed": "implies(raised, isinstance(exc, LoadError))",
-    "culprit": "implies(raised, exc.input_value is data)",
+    "culprit": "implies(raised and isinstance(exc, LoadError), exc.input_value is data)",
 }
 CP = {"raises-closed": ["C04"], "culprit": ["C05", "C06"], "accept-iff": ["C02", "C07"], "value": ["C02", "C01"],
       "strict-origin": ["C07"], "type-vs-value": ["C02"], "pure": ["C20"]}
@@ -84,3 +84,83 @@ contract(F, "none_loader", props=["C02", "C04", "C05", "C06", "C07", "C20"], par
                "value": "implies(returned, result is None)",
                "type-vs-value": "implies(raised, type(exc) is TypeLoadError)"},
          cover=["returned", "raised"], native=lambda mod, label: mod.none_loader)
+
+
+# ---- closures reached through their real factory method ------------------------------------------------------------
+def closure(qual, entry, receivers, post, props=("C02", "C04", "C05", "C06", "C20"), cover=("returned", "raised"),
+            native=None, **kw):
+    kw.setdefault("clause_props", CP)
+    contract(F, qual, props=list(props), params={"data": "D"}, via=Via(entry, receivers), post=post,
+             cover=list(cover), native=native, **kw)
+
+
+ISO = {"date": lambda m: m.IsoFormatProvider(date), "time": lambda m: m.IsoFormatProvider(time),
+       "datetime": lambda m: m.IsoFormatProvider(datetime)}
+closure("IsoFormatProvider._make_loader.<locals>.isoformat_loader", "IsoFormatProvider._make_loader", ISO,
+        {**COMMON_RAISE,
+         "accept-iff": "returned == py(lambda d, f: ctor_ok(f, d), data, raw_loader)",
+         "value": "implies(returned, py(lambda d, r, f: same(r, f(d)), data, result, raw_loader))",
+         "type-vs-value": "implies(raised, (type(exc) is TypeLoadError) == py(lambda d: type(d) is not str and not isinstance(d, str), data))"},
+        props=("C02", "C04", "C05", "C06", "C20", "C01"),
+        native=lambda mod, label: ISO[label](mod)._make_loader())
+
+closure("DatetimeFormatProvider._make_loader.<locals>.datetime_format_loader", "DatetimeFormatProvider._make_loader",
+        {"ymd": lambda m: m.DatetimeFormatProvider("%Y-%m-%d"), "hms": lambda m: m.DatetimeFormatProvider("%H:%M:%S")},
+        {**COMMON_RAISE,
+         "accept-iff": "returned == py(lambda d, f: ctor_ok(datetime.strptime, d, f), data, fmt)",
+         "value": "implies(returned, py(lambda d, r, f: same(r, datetime.strptime(d, f)), data, result, fmt))"},
+        native=lambda mod, label: mod.DatetimeFormatProvider({"ymd": "%Y-%m-%d", "hms": "%H:%M:%S"}[label])._make_loader())
+
+closure("DatetimeTimestampProvider._make_loader.<locals>.datetime_timestamp_loader",
+        "DatetimeTimestampProvider._make_loader",
+        {"utc": lambda m: m.DatetimeTimestampProvider(timezone.utc), "local": lambda m: m.DatetimeTimestampProvider(None)},
+        {**COMMON_RAISE,
+         "accept-iff": "returned == py(lambda d, z: ctor_ok(datetime.fromtimestamp, d, tz=z), data, tz)",
+         "value": "implies(returned, py(lambda d, r, z: same(r, datetime.fromtimestamp(d, tz=z)), data, result, tz))"},
+        native=lambda mod, label: mod.DatetimeTimestampProvider({"utc": timezone.utc, "local": None}[label])._make_loader())
+
+closure("SecondsTimedeltaProvider._make_loader.<locals>.timedelta_loader", "SecondsTimedeltaProvider._make_loader",
+        {"": lambda m: m.SecondsTimedeltaProvider()},
+        {**COMMON_RAISE,
+         # documented: "Loader accepts instance of int, float or Decimal representing seconds"
+         "strict-origin": "implies(returned, py(lambda d: type(d) in (int, float, Decimal), data))",
+         "type-vs-value": "implies(raised, (type(exc) is TypeLoadError) == py(lambda d: type(d) not in (int, float, Decimal), data))",
+         "value": "implies(returned, py(lambda d, r: type(r) is timedelta and abs(r.total_seconds() - float(d)) < 1e-6, data, result))",
+         "accept-finite": "implies(py(lambda d: type(d) in (int, float, Decimal) and math.isfinite(d) and abs(d) < 10**9, data), returned)"},
+        props=("C02", "C04", "C05", "C06", "C20", "C01", "C07"),
+        clause_props={**CP, "accept-finite": ["C02"], "value": ["C02", "C01"]},
+        native=lambda mod, label: mod.SecondsTimedeltaProvider()._make_loader())
+
+closure("BytesBase64Provider._make_loader.<locals>.bytes_base64_loader", "BytesBase64Provider._make_loader",
+        {"": lambda m: m.BytesBase64Provider()},
+        {**COMMON_RAISE,
+         "strict-origin": "implies(returned, py(lambda d: isinstance(d, str), data))",
+         "type-vs-value": "implies(raised, (type(exc) is TypeLoadError) == py(lambda d: not isinstance(d, str), data))",
+         "value": "implies(returned, py(lambda d, r: type(r) is bytes and r == a2b_base64(d.encode('ascii')), data, result))",
+         "accept-iff": "returned == py(lambda d: isinstance(d, str) and d.isascii() and bool(B64_PATTERN.fullmatch(d.encode('ascii'))) and ctor_ok(a2b_base64, d.encode('ascii')), data)"},
+        props=("C02", "C04", "C05", "C06", "C20", "C01", "C07"),
+        native=lambda mod, label: mod.BytesBase64Provider()._make_loader())
+
+closure("RegexPatternProvider._make_loader.<locals>.regex_loader", "RegexPatternProvider._make_loader",
+        {"": lambda m: m.RegexPatternProvider()},
+        {**COMMON_RAISE,
+         "accept-iff": "returned == py(lambda d: isinstance(d, str) and ctor_ok(re.compile, d), data)",
+         "value": "implies(returned, py(lambda d, r: isinstance(r, re.Pattern) and r.pattern == d and r.flags == re.compile(d, flags).flags, data, result))",
+         "type-vs-value": "implies(raised, (type(exc) is TypeLoadError) == py(lambda d: not isinstance(d, str), data))"},
+        props=("C02", "C04", "C05", "C06", "C20", "C01", "C07"),
+        native=lambda mod, label: mod.RegexPatternProvider()._make_loader())
+
+# wrappers around another loader: modular — the wrapped loader is any callable under LD
+for _qual, _entry, _recv, _ctor in [
+    ("BytesIOBase64Provider._make_loader.<locals>.bytes_io_base64_loader", "BytesIOBase64Provider._make_loader",
+     lambda m: m.BytesIOBase64Provider(), "BytesIO"),
+    ("BytearrayBase64Provider._make_loader.<locals>.bytearray_base64_loader", "BytearrayBase64Provider._make_loader",
+     lambda m: m.BytearrayBase64Provider(), "bytearray"),
+]:
+    contract(F, _qual, props=["C02", "C04", "C05", "C20"], params={"data": "D"},
+             via=Via(_entry, {"": _recv}, args={"loader": "LD"}), clause_props=CP,
+             post={"raises-closed": "implies(raised, isinstance(exc, LoadError))",
+                   "accept-iff": "returned == ok(loader, data)",
+                   "culprit": "implies(raised, exc is err(loader, data))"},
+             requires=["forall(lambda k: True)"] and ["res_is_bytes(loader)"],
+             cover=["returned", "raised"])
